@@ -247,6 +247,10 @@ def parse_event(line):
     return ev
 
 
+# runs ended by the wall-clock backstop (the only thing in a run that is not a function of the seed)
+backstop_fired = 0
+
+
 def run_batch(exe, plans, timeout=8, cwd=None):
     """plans: list of (id, plan_text).  Returns dict id -> RunResult."""
     d = os.path.dirname(exe)
@@ -279,8 +283,11 @@ def run_batch(exe, plans, timeout=8, cwd=None):
     err = p.stderr.decode('latin-1')
     for k in [k for k, r in res.items() if r.status == 'skipped']:
         del res[k]
+    global backstop_fired
     for r in res.values():
         r.stderr = err if r.status not in ('exit=0',) else ''
+        if r.status == 'signal=14':
+            backstop_fired += 1
         if r.status and r.status.startswith('signal=') and r.raw and not r.raw[-1].split(' ')[2:3] == ['Q']:
             # killed without a final flush: the last line may be cut short
             r.raw.pop()
